@@ -44,3 +44,13 @@ Definition spec_c04 (i : env * list (Z * Z) * Z * ptype) : sx :=
       end
   | _ => sx_err EOther
   end.
+
+(* ---- C08 / C07 inputs ---- *)
+Inductive dec_input :=
+| InCal (c : calibrator) (x : num)
+| InField (e : env) (bs : list (Z * Z)) (pos : Z) (t : ptype).
+Definition run_dec (i : dec_input) : sx :=
+  match i with
+  | InCal c x => run_calibrate (c, x)
+  | InField e bs pos t => run_decode (e, bs, pos, t)
+  end.
